@@ -105,8 +105,9 @@ Definition classify (dups : list (id * list nat)) (i : nat) (s : id) : kind * li
   end.
 
 (* one iteration: new `current`, new table, emitted statement.
-   [fx = false] is the code as it is; [fx = true] is the proposed one-line repair
-   (`current[s.symbol] = s.expression.subs(current)` in the first-occurrence branch). *)
+   [fx = true] is the code as it is since commit 0e1c190 (`current[s.symbol] = s.expression.subs(current)` in the
+   first-occurrence branch); [fx = false] is the code before that fix (raw capture), kept for the regression
+   examples. *)
 Definition decl_step_gen (fx : bool) (cur : list (id * expr)) (dups : list (id * list nat)) (i : nat) (st : stm)
   : list (id * expr) * list (id * list nat) * option stm :=
   match st with
@@ -115,7 +116,7 @@ Definition decl_step_gen (fx : bool) (cur : list (id * expr)) (dups : list (id *
       match classify dups i s with
       | (KPlain, d') => (cur, d', Some (SAssign s (subs_map cur e)))
       | (KFirst, d') => (aset s (if fx then subs_map cur e else e) cur, d', None)
-                                                             (* current[s] = s.expression  (raw) *)
+                                                             (* current[s] = s.expression.subs(current) *)
       | (KMiddle, d') => (aset s (subs_map cur e) cur, d', None)
       | (KLast, d') => (aremove s cur, d', Some (SAssign s (subs_map cur e)))
       end
@@ -134,9 +135,9 @@ Fixpoint decl_walk_gen (fx : bool) (l : list stm) (i : nat) (cur : list (id * ex
 
 Definition declarative_gen (fx : bool) (l : list stm) : list stm := decl_walk_gen fx l 0 [] (dup_table l).
 (* make_declarative as it is *)
-Definition declarative (l : list stm) : list stm := declarative_gen false l.
-(* make_declarative with the proposed repair *)
-Definition declarative_patched (l : list stm) : list stm := declarative_gen true l.
+Definition declarative (l : list stm) : list stm := declarative_gen true l.
+(* make_declarative before commit 0e1c190 *)
+Definition declarative_before_fix (l : list stm) : list stm := declarative_gen false l.
 
 (* `current` after the loop (always empty: Proofs.decl_final_empty) *)
 Fixpoint decl_final_gen (fx : bool) (l : list stm) (i : nat) (cur : list (id * expr)) (dups : list (id * list nat))
@@ -187,12 +188,14 @@ Fixpoint decl_guard_gen (fx : bool) (l : list stm) (i : nat) (cur : list (id * e
       end
   end.
 
-Definition g_no_stale_capture (l : list stm) : bool := decl_guard_gen false l 0 [] (dup_table l) [].
-(* the guard that remains with the repair: no raw-capture conjunct *)
-Definition g_no_stale_capture_patched (l : list stm) : bool := decl_guard_gen true l 0 [] (dup_table l) [].
+(* no pending expression is substituted after a symbol it mentions was re-assigned.  True for every valid model
+   (Proofs.guard_on_valid); it can only fail when a statement assigns a parameter / rv / column. *)
+Definition g_no_stale_capture (l : list stm) : bool := decl_guard_gen true l 0 [] (dup_table l) [].
+Definition g_no_stale_capture_before_fix (l : list stm) : bool := decl_guard_gen false l 0 [] (dup_table l) [].
 
 (* ---- cleanup_model: the inlining loop -------------------------------------------------------------
-   for s in statements: if Assignment and s.expression.is_symbol(): current[s.symbol] = s.expression
+   for s in statements: if Assignment and s.expression.is_symbol():
+                            current[s.symbol] = s.expression.subs(current)        (since commit 185d1d3)
                         else: newstats.append(s.subs(current))                                      *)
 Definition alias_of (st : stm) : option (id * id) :=
   match st with SAssign s (Sym y) => Some (s, y) | _ => None end.
@@ -202,7 +205,7 @@ Fixpoint inline_walk (l : list stm) (cur : list (id * expr)) : list stm :=
   | [] => []
   | st :: tl =>
       match alias_of st with
-      | Some (s, y) => inline_walk tl (aset s (Sym y) cur)
+      | Some (s, y) => inline_walk tl (aset s (subs_map cur (Sym y)) cur)
       | None => subs_stm cur st :: inline_walk tl cur
       end
   end.
@@ -213,7 +216,7 @@ Fixpoint inline_final (l : list stm) (cur : list (id * expr)) : list (id * expr)
   | [] => cur
   | st :: tl =>
       match alias_of st with
-      | Some (s, y) => inline_final tl (aset s (Sym y) cur)
+      | Some (s, y) => inline_final tl (aset s (subs_map cur (Sym y)) cur)
       | None => inline_final tl cur
       end
   end.
@@ -222,14 +225,14 @@ Definition inlined (l : list stm) : list id := akeys (inline_final l []).
 
 Definition targets (cur : list (id * expr)) : list id := flat_map (fun kv => free_syms (snd kv)) cur.
 
-(* guard: an alias never points to an alias (chain), and neither an alias nor the symbol it points
-   to is assigned again while the alias is pending *)
+(* guard: neither an alias nor the symbol it points to is assigned again while the alias is pending (true for
+   every single-assignment valid model, Proofs.inline_ok_on_valid; chains of aliases need no conjunct any more) *)
 Fixpoint inline_guard (l : list stm) (cur : list (id * expr)) : bool :=
   match l with
   | [] => true
   | st :: tl =>
       match alias_of st with
-      | Some (s, y) => negb (memp y (akeys cur)) && inline_guard tl (aset s (Sym y) cur)
+      | Some (s, y) => inline_guard tl (aset s (subs_map cur (Sym y)) cur)
       | None => negb (interp_nonempty (sdefs st) (akeys cur ++ targets cur)) && inline_guard tl cur
       end
   end.
@@ -239,18 +242,6 @@ Definition g_inline_ok (l : list stm) : bool := inline_guard l [].
    inline_preserves / cleanup_preserves for x = the dependent variable) *)
 Definition g_dv_not_alias (outs : list id) (l : list stm) : bool :=
   forallb (fun y => negb (memp y (inlined l))) outs.
-
-(* the conjunct that fails on `V = VC ; S1 = V` *)
-Fixpoint no_alias_chain (l : list stm) (cur : list (id * expr)) : bool :=
-  match l with
-  | [] => true
-  | st :: tl =>
-      match alias_of st with
-      | Some (s, y) => negb (memp y (akeys cur)) && no_alias_chain tl (aset s (Sym y) cur)
-      | None => no_alias_chain tl cur
-      end
-  end.
-Definition g_no_alias_chain (l : list stm) : bool := no_alias_chain l [].
 
 (* ---- rename_symbols: statements.subs(d) with a symbol-to-symbol dict ------------------------------ *)
 Definition ren_map (d : list (id * id)) : list (id * expr) := map (fun kv => (fst kv, Sym (snd kv))) d.
@@ -317,35 +308,34 @@ Arguments ROk {A} a. Arguments RValueError {A}. Arguments RInternal {A}.
 Definition make_declarative_m (known : list id) (l : list stm) : res (list stm) :=
   let d := declarative l in if canon_ok known d then ROk d else RValueError.
 
-(* cleanup_model: declarative; inline; replace_non_random_rvs; replace_fixed_thetas *)
-Definition cleanup_stmts (fixed : list (id * Q)) (dists : list dist) (l : list stm) : list stm :=
-  let fixed' := filter (fun kv => negb (memp (fst kv) (removed_params fixed dists))) fixed in
-  replace_fixed fixed' (replace_non_random fixed dists (inline (declarative l))).
-(* the statements only: cleanup_m below adds the checks Model.replace performs *)
-
-(* replace_fixed_thetas replaces EVERY fixed parameter (`for p in model.parameters: if p.fix`), also
-   fixed omegas / sigmas.  [fixed_after] = the fixed parameters still present after
-   replace_non_random_rvs; [kept_dists] = the distributions still present. *)
-Definition fixed_after (fixed : list (id * Q)) (dists : list dist) : list (id * Q) :=
-  filter (fun kv => negb (memp (fst kv) (removed_params fixed dists))) fixed.
+(* replace_fixed_thetas replaces the fixed parameters that no random variable uses
+   (`if p.fix and p.symbol not in model.random_variables.free_symbols`, since commit 142d5a3).
+   [kept_dists] = the distributions still present after replace_non_random_rvs; [fixed_after] = the fixed
+   parameters that are replaced by assignments. *)
 Definition kept_dists (fixed : list (id * Q)) (dists : list dist) : list dist :=
   filter (fun d => negb (forallb (is_fixed_zero fixed) (d_params d))) dists.
+Definition rv_symbols (ds : list dist) : list id := flat_map (fun d => d_names d ++ d_params d) ds.
+Definition fixed_after (fixed : list (id * Q)) (dists : list dist) : list (id * Q) :=
+  filter (fun kv => negb (memp (fst kv) (removed_params fixed dists))
+                    && negb (memp (fst kv) (rv_symbols (kept_dists fixed dists)))) fixed.
 Definition cleanup_params (fixed : list (id * Q)) (dists : list dist) (params : list id) : list id :=
   filter (fun p => negb (memp p (removed_params fixed dists)) && negb (memp p (akeys (fixed_after fixed dists))))
          params.
-(* variance parameters of the remaining distributions that are no longer parameters of the model *)
-(* (a fixed parameter is either removed by replace_non_random_rvs or replaced by replace_fixed_thetas) *)
+(* variance parameters of the remaining distributions that are no longer parameters of the model: only a
+   zero-fixed parameter SHARED between a removed and a kept distribution (replace_non_random_rvs removes it) *)
 Definition dangling (fixed : list (id * Q)) (dists : list dist) : list id :=
-  filter (fun p => memp p (akeys fixed)) (flat_map d_params (kept_dists fixed dists)).
+  filter (fun p => memp p (removed_params fixed dists)) (flat_map d_params (kept_dists fixed dists)).
 (* Model.replace -> validate_parameters: a joint distribution with a variance entry that is not a
    parameter any more cannot be made numeric (TypeError) *)
 Definition joint_dangling (fixed : list (id * Q)) (dists : list dist) : bool :=
   existsb (fun d => match d_names d with
-                    | _ :: _ :: _ => existsb (fun p => memp p (akeys fixed)) (d_params d)
+                    | _ :: _ :: _ => existsb (fun p => memp p (removed_params fixed dists)) (d_params d)
                     | _ => false end) (kept_dists fixed dists).
-(* the documented behaviour: only thetas are replaced *)
-Definition g_fixed_are_thetas (fixed : list (id * Q)) (dists : list dist) : bool :=
-  match dangling fixed dists with [] => true | _ => false end.
+
+(* cleanup_model: declarative; inline; replace_non_random_rvs; replace_fixed_thetas (the statements only:
+   cleanup_m below adds the checks Model.replace performs) *)
+Definition cleanup_stmts (fixed : list (id * Q)) (dists : list dist) (l : list stm) : list stm :=
+  replace_fixed (fixed_after fixed dists) (replace_non_random fixed dists (inline (declarative l))).
 
 (* the part of cleanup_model after make_declarative, on the declarative statements [d].  (The test
    `s.expression.is_symbol()` looks at the expression AFTER symengine canonicalised the substituted
@@ -437,25 +427,29 @@ Definition unused_new_rv_names (symbols : list id) (dists : list rdist) : list i
   flat_map rdist_names (unused_new_dists symbols dists).
 
 (* ---- get_observation_expression / get_individual_prediction_expression / get_population_... -------
-   for i, s in enumerate(stats): if s.symbol == dv: y = s.expression; break        (FIRST assignment)
-   for j in range(i, -1, -1): y = y.subs({stats[j].symbol: stats[j].expression})
-   A CompartmentalSystem has no `.symbol`: AttributeError (None) when one is met before the assignment. *)
-Fixpoint split_first (s : id) (l : list stm) (pre : list stm) : option (list stm * expr * list stm) :=
-  match l with
+   i = stats.find_assignment_index(dv)          (the LAST assignment, since commit df3152c)
+   y = stats[i].expression
+   for j in range(i - 1, -1, -1): y = y.subs({stats[j].symbol: stats[j].expression})
+   A CompartmentalSystem has no `.symbol`: AttributeError (None) when one precedes the assignment. *)
+(* [rl] = the statements in reverse order; result: (statements i-1..0, expression, statements after i) *)
+Fixpoint split_rev (s : id) (rl : list stm) (post : list stm) : option (list stm * expr * list stm) :=
+  match rl with
   | [] => None                                               (* ValueError: could not locate ... *)
-  | SOde _ _ :: _ => None                                    (* AttributeError *)
   | SAssign x e :: tl =>
-      if Pos.eqb x s then Some (pre, e, tl) else split_first s tl (SAssign x e :: pre)
+      if Pos.eqb x s then Some (tl, e, post) else split_rev s tl (SAssign x e :: post)
+  | st :: tl => split_rev s tl (st :: post)
   end.
 
 Definition subs1 (acc : expr) (st : stm) : expr :=
   match st with SAssign s t => subs s t acc | SOde _ _ => acc end.
 
-(* [pre] is the reversed prefix, i.e. statements i-1, ..., 0 *)
+Definition has_sode (l : list stm) : bool :=
+  existsb (fun st => match st with SOde _ _ => true | _ => false end) l.
+
 Definition obs_expr (l : list stm) (dv : id) : option expr :=
-  match split_first dv l [] with
+  match split_rev dv (rev l) [] with
   | None => None
-  | Some (pre, e, _) => Some (fold_left subs1 pre (subs dv e e))
+  | Some (pre, e, _) => if has_sode pre then None (* AttributeError *) else Some (fold_left subs1 pre e)
   end.
 
 Definition zeros (xs : list id) : list (id * expr) := map (fun x => (x, Num 0)) xs.
@@ -464,12 +458,8 @@ Definition ipred_expr (l : list stm) (dv : id) (epss : list id) : option expr :=
 Definition pred_expr (l : list stm) (dv : id) (epss etas : list id) : option expr :=
   option_map (subs_map (zeros etas)) (ipred_expr l dv epss).
 
-(* the first assignment of the dependent variable is its only one and does not read itself *)
-Definition g_dv_single (l : list stm) (dv : id) : bool :=
-  match split_first dv l [] with
-  | None => false
-  | Some (_, e, rest) => negb (memp dv (free_syms e)) && negb (memp dv (all_sdefs rest))
-  end.
+(* all compartment amounts of a program (functions A_x(t), never an assignable symbol in pharmpy) *)
+Definition amounts (l : list stm) : list id := flat_map (fun st => match st with SOde a _ => a | _ => [] end) l.
 
 (* ---- validity of a statement list as a model (what Model.create accepts, plus: no statement assigns a
    parameter / rv / column, compartment amounts are defined once, by their system, and read only after it).
